@@ -88,6 +88,15 @@ struct ItemSpec {
     /// where-predicates that mention them)
     #[serde(default)]
     generics_to_methods: Vec<String>,
+    /// R19 (gate projection): keep only the first N statements of the body; everything after them is replaced by the tail call
+    /// `vx_rest_tail()` (an opaque stub that logs one `Rest` effect and returns any value).  Only sound for contracts that say
+    /// "the rest is not reached when ..." -- which is exactly what an authentication/precondition gate claims.
+    #[serde(default)]
+    keep_stmts: Option<usize>,
+    /// R19 variant: keep the leading GUARD statements (`if cond { ..; return ..; }` without else) and erase from the first
+    /// statement that is not such a guard
+    #[serde(default)]
+    keep_guards: bool,
     /// extract this item only when the feature is active
     #[serde(default)]
     only_feature: Option<String>,
@@ -1392,6 +1401,37 @@ fn main() {
                             hashes.push((sha(&on), span_line(m.sig.ident.span()), on));
                         }
                     }
+                    if spec.keep_guards {
+                        for ii in im.items.iter_mut() {
+                            if let syn::ImplItem::Fn(m) = ii {
+                                let mut n = 0;
+                                for st in m.block.stmts.iter() {
+                                    let is_guard = match st {
+                                        syn::Stmt::Expr(syn::Expr::If(i), _) => i.else_branch.is_none()
+                                            && matches!(i.then_branch.stmts.last(), Some(syn::Stmt::Expr(syn::Expr::Return(_), _))),
+                                        _ => false,
+                                    };
+                                    if is_guard { n += 1; } else { break; }
+                                }
+                                if m.block.stmts.len() > n {
+                                    m.block.stmts.truncate(n);
+                                    m.block.stmts.push(syn::Stmt::Expr(syn::parse_quote!(vx_rest_tail()), None));
+                                    rw.rules.insert("R19".into());
+                                }
+                            }
+                        }
+                    }
+                    if let Some(n) = spec.keep_stmts {
+                        for ii in im.items.iter_mut() {
+                            if let syn::ImplItem::Fn(m) = ii {
+                                if m.block.stmts.len() > n {
+                                    m.block.stmts.truncate(n);
+                                    m.block.stmts.push(syn::Stmt::Expr(syn::parse_quote!(vx_rest_tail()), None));
+                                    rw.rules.insert("R19".into());
+                                }
+                            }
+                        }
+                    }
                     rw.visit_item_impl_mut(&mut im);
                     rw.filter_attrs(&mut im.attrs);
                     if spec.drop_where { im.generics.where_clause = None; }
@@ -1457,6 +1497,7 @@ fn main() {
                             if im.trait_.is_none() { m.vis = syn::parse_quote!(pub); }
                             let (th, rl, on) = hashes[hi].clone();
                             hi += 1;
+
                             let mut fo = process_fn_common(&key, &mut m.attrs, &mut m.sig, Some(&mut m.block), &contracts, fn_idx, &rw.rules, &spec.file, th, rl, spec.external_body);
                             fo.orig_norm = on;
                             used_contract_keys.insert(key.clone());
